@@ -17,6 +17,7 @@ import (
 	"io"
 	"math"
 	"net"
+	"runtime"
 	"sort"
 	"strings"
 	"sync"
@@ -101,6 +102,9 @@ type C15Req struct {
 	Upd  int    `json:"upd"`           // scripted updates: index into Updates, -1 = nil
 	Fail bool   `json:"fail"`          // the handler fails ...
 	Err  string `json:"err,omitempty"` // ... with this text
+	// UpdRel relates the scripted updates to the request: "first" = the first update names the
+	// container of this very request (one is added if the list is empty), "all" = every update does.
+	UpdRel string `json:"upd_rel,omitempty"`
 	// DelayMs: the handler takes this long to answer (always well within the request timeout the
 	// runtime end announced in this session's Configure request: 2*DelayMs <= ReqTimeoutMs).
 	DelayMs int `json:"delay_ms,omitempty"`
@@ -132,6 +136,14 @@ type C15Session struct {
 	Config  string `json:"config,omitempty"`
 	Runtime string `json:"runtime,omitempty"`
 	Version string `json:"version,omitempty"`
+	// SyncUpdRel: the first scripted update of the Synchronize handler names the first container
+	// this session's Synchronize carried (one is added if the list is empty).
+	SyncUpdRel bool `json:"sync_upd_rel,omitempty"`
+	// SyncAbrupt (only when !SyncFinal): the last More=true message is written and the runtime
+	// end drops the connection at once, SyncAbruptUs microseconds later, without waiting for
+	// the answer; the next session follows immediately.
+	SyncAbrupt   bool `json:"sync_abrupt,omitempty"`
+	SyncAbruptUs int  `json:"sync_abrupt_us,omitempty"`
 	// ReqTimeoutMs is the plugin request timeout the runtime end announces in the Configure
 	// request (milliseconds; 0 = it announces none). The runtime end itself waits much longer.
 	ReqTimeoutMs int64 `json:"req_timeout_ms"`
@@ -545,6 +557,11 @@ func genSession(t *rapid.T, ent typeEntry, c *C15Case, nsess int) C15Session {
 	}
 	if nchunks > 0 {
 		s.SyncFinal = nsess == 1 || !maybe(t, "syncunfinished", 5)
+		if !s.SyncFinal && rapid.Bool().Draw(t, "syncabrupt") {
+			s.SyncAbrupt = true
+			s.SyncAbruptUs = rapid.SampledFrom([]int{0, 0, 20, 50, 100, 200, 500}).Draw(t, "syncabruptus")
+		}
+		s.SyncUpdRel = maybe(t, "syncupdrel", 3)
 		s.SyncUpd = rapid.IntRange(-1, nu-1).Draw(t, "syncupd")
 		if maybe(t, "syncfail", 5) {
 			s.SyncFail = true
@@ -626,6 +643,10 @@ func genSession(t *rapid.T, ent typeEntry, c *C15Case, nsess int) C15Session {
 			r.Ovh = -1
 		case 1:
 			r.Ovh = -2
+		}
+		// an update that names the container of this very request (create / update / stop)
+		if (e == api.Event_CREATE_CONTAINER || e == api.Event_UPDATE_CONTAINER || e == api.Event_STOP_CONTAINER) && maybe(t, "updrel", 3) {
+			r.UpdRel = rapid.SampledFrom([]string{"first", "first", "all"}).Draw(t, "updrelkind")
 		}
 		// relations between the parts of the message
 		switch rel := rapid.IntRange(0, 19).Draw(t, "rel"); {
@@ -961,7 +982,7 @@ func validCase(c C15Case) string {
 	if len(c.Pods) == 0 || len(c.Ctrs) == 0 || len(c.Res) == 0 {
 		return "empty pool"
 	}
-	if len(c.Sessions) < 1 || len(c.Sessions) > 8 {
+	if len(c.Sessions) < 1 || len(c.Sessions) > 128 {
 		return "number of sessions out of range"
 	}
 	for _, s := range c.Sessions {
@@ -1189,6 +1210,28 @@ func runC15Once(c C15Case) (out ev.Outcome, overloaded bool) {
 	return cr.finish(o), false
 }
 
+// relUpdates makes the first (all == false) or every update name the container id; an empty
+// list gets one update for it.
+func relUpdates(upd []*api.ContainerUpdate, id string, all bool, res *api.LinuxResources) []*api.ContainerUpdate {
+	var out []*api.ContainerUpdate
+	for _, u := range upd {
+		out = append(out, proto.Clone(u).(*api.ContainerUpdate))
+	}
+	if len(out) == 0 {
+		u := &api.ContainerUpdate{ContainerId: id, IgnoreFailure: true, Linux: &api.LinuxContainerUpdate{}}
+		if res != nil {
+			u.Linux.Resources = proto.Clone(res).(*api.LinuxResources)
+		}
+		return []*api.ContainerUpdate{u}
+	}
+	for i, u := range out {
+		if i == 0 || all {
+			u.ContainerId = id
+		}
+	}
+	return out
+}
+
 func specOf(p *ErrSpec) ErrSpec {
 	if p == nil {
 		return ErrSpec{}
@@ -1396,6 +1439,10 @@ func (cr *caseRun) runSession(k int, s *session) (verdict, string) {
 		if sc.SyncUpd >= 0 {
 			upd = c.Updates[sc.SyncUpd]
 		}
+		if sc.SyncUpdRel && len(allCtrs) > 0 && !more {
+			upd = relUpdates(upd, allCtrs[0].GetId(), false, allCtrs[0].GetLinux().GetResources())
+			classes["rel:sync-update-names-synchronized-container"] = true
+		}
 		var mkErr func() error
 		var carries, wireMsg string
 		if sc.SyncFail {
@@ -1404,6 +1451,34 @@ func (cr *caseRun) runSession(k int, s *session) (verdict, string) {
 		}
 		rec.script(scripted{Updates: upd, MkErr: mkErr})
 		before := len(rec.snapshot())
+		if sc.SyncAbrupt && !sc.SyncFinal && i == len(sc.SyncChunks)-1 {
+			// write the message and drop the connection at once; nobody waits for the answer
+			classes["sync:dropped-right-after-a-more-message"] = true
+			done := make(chan struct{})
+			go func() {
+				ctx, cancel := stepCtx()
+				_, _ = s.plugin.Synchronize(ctx, req)
+				cancel()
+				close(done)
+			}()
+			if sc.SyncAbruptUs > 0 {
+				time.Sleep(time.Duration(sc.SyncAbruptUs) * time.Microsecond)
+			} else {
+				runtime.Gosched()
+			}
+			s.closePeer()
+			select {
+			case <-done:
+			case <-time.After(stepTimeout):
+				return vSlow, "abandoned Synchronize call did not return"
+			}
+			cr.note("%s %s written, connection dropped %dus later", tag, fmt.Sprintf("Synchronize message %d of %d (more=true)", i+1, len(sc.SyncChunks)), sc.SyncAbruptUs)
+			cr.hadSplit, cr.hadUnfin = true, true
+			if extra := rec.snapshot()[before:]; len(extra) != 0 {
+				return fail("a More=true Synchronize message invoked %s", handlersOf(extra))
+			}
+			return vOK, ""
+		}
 		ctx, cancel := stepCtx()
 		srpl, serr := s.plugin.Synchronize(ctx, req)
 		expired := slow(ctx, serr)
@@ -1543,6 +1618,9 @@ func (cr *caseRun) runSession(k int, s *session) (verdict, string) {
 		if r.Upd >= 0 {
 			upd = c.Updates[r.Upd]
 		}
+		if r.UpdRel != "" && ctr.GetId() != "" {
+			upd = relUpdates(upd, ctr.GetId(), r.UpdRel == "all", res)
+		}
 		var mkErr func() error
 		var carries, wireMsg string
 		if r.Fail {
@@ -1662,6 +1740,22 @@ func (cr *caseRun) runSession(k int, s *session) (verdict, string) {
 			classes["rel:overhead-equals-resources"] = true
 			if proto.Equal(res, pod.GetLinux().GetPodResources()) {
 				classes["rel:pod-update-equals-pod-resources"] = true
+			}
+		}
+		if !r.Fail && ctr.GetId() != "" {
+			for _, u := range upd {
+				if u.GetContainerId() == ctr.GetId() {
+					switch e {
+					case api.Event_CREATE_CONTAINER:
+						classes["rel:create-update-names-created-container"] = true
+						if adj != nil {
+							classes["rel:create-update-names-created-container+adjustment"] = true
+						}
+					case api.Event_UPDATE_CONTAINER, api.Event_STOP_CONTAINER:
+						classes["rel:update-names-request-container"] = true
+					}
+					break
+				}
 			}
 		}
 		if ctr != nil && pod != nil && ctr.GetId() == pod.GetId() {
@@ -1936,6 +2030,16 @@ func TestExh_C15(t *testing.T) {
 			C15Req{Event: int32(api.Event_UPDATE_POD_SANDBOX), Ctr: -1, Res: 1, Ovh: 0, Adj: -1, Upd: -1, Rel: rel},
 			C15Req{Event: int32(api.Event_UPDATE_POD_SANDBOX), Ctr: -1, Res: 0, Ovh: 1, Adj: -1, Upd: -1, Rel: rel, Fail: true, Err: "exh-rel-fail"})
 	}
+	// updates naming the container of the very request: with / without an adjustment next to
+	// it, with / without other updates, first or all
+	for _, e := range []api.Event{api.Event_CREATE_CONTAINER, api.Event_UPDATE_CONTAINER, api.Event_STOP_CONTAINER} {
+		for _, adj := range []int{0, -1} {
+			for _, upd := range []int{0, -1} {
+				relReqs = append(relReqs, C15Req{Event: int32(e), Res: 1, Ovh: -1, Adj: adj, Upd: upd, UpdRel: "first"})
+			}
+		}
+		relReqs = append(relReqs, C15Req{Event: int32(e), Res: 0, Ovh: -1, Adj: 0, Upd: 0, UpdRel: "all", Rel: "res=ctr"})
+	}
 	for e := int32(1); e <= 13; e++ {
 		r := C15Req{Event: e, Res: 1, Ovh: 0, Adj: 0, Upd: 0, Rel: "ctrid=podid"}
 		relReqs = append(relReqs, r, r) // and once more, verbatim
@@ -2035,7 +2139,26 @@ func TestExh_C15(t *testing.T) {
 			if ent.HasConfigure {
 				m1, m2 = lo, ent.Mask
 			}
-			runOne(mk(ti, withSync(sess(m1, "close", okReqs, failReqs, shapeReqs, formReqs(ti), relReqs), true, false, one)))
+			basic := withSync(sess(m1, "close", okReqs, failReqs, shapeReqs, formReqs(ti), relReqs), true, false, one)
+			basic.SyncUpdRel = ti%8 < 4
+			if ti%16 < 8 {
+				basic.SyncUpd = -1
+			}
+			runOne(mk(ti, basic))
+			if (ti/4)%8 == 0 {
+				// restart storm: 25 times a synchronization is cut short by dropping the connection
+				// right after a More=true message was written, each time followed at once by a
+				// session with a complete synchronization of its own
+				var storm []C15Session
+				for n := 0; n < 25; n++ {
+					cut := withSync(sess(m2, "close"), false, false, ch([]int{0}, []int{1}), ch([]int{1, 0}, []int{0, 0}))
+					cut.SyncAbrupt, cut.SyncAbruptUs = true, []int{0, 20, 50, 100, 200}[n%5]
+					full := withSync(sess(m1, []string{"close", "stop"}[n%2]), true, false, ch([]int{n % 2}, []int{(n + 1) % 2}))
+					full.Reqs = nil
+					storm = append(storm, cut, full)
+				}
+				runOne(mk(ti, storm...))
+			}
 			runOne(mk(ti,
 				withSync(sess(m2, "stop", okReqs), true, false, ch([]int{0}, []int{0}), ch([]int{1}, []int{1, 1})),
 				withSync(sess(m1, "close", okReqs), true, false, ch([]int{1}, nil)),
@@ -2156,7 +2279,7 @@ func TestExh_C15(t *testing.T) {
 		}
 	}
 	r.SetExtra("exhaustive", map[string]any{
-		"subdomain": "every generated plugin type (512: 128 handler sets x with/without Configure x with/without Synchronize) x each of the 13 event kinds (succeeding and failing handler; documented message shape, container present/absent the other way round, pod/container/resources absent and present-but-empty; the failing handler's error in every form x sentinel / status code, round-robin over types and kinds; related message parts: update resources equal to the container's own, overhead equal to resources and to the pod's own, container id equal to pod id, every request repeated verbatim); six cases with a handler taking 2.3 s under an announced request timeout of 6 s (first session; third session after sessions announcing 40 ms and none); for the types without Synchronize handler: Configure returning 0, the implemented mask, each single implemented event, implemented+each single unimplemented event, and, for every third handler set, about twenty masks using bits 13..31 (all ones, the sign bit, bits 13..30; alone and on top of handled / unhandled events); per type restart sequences on one stub (3 connections; with Configure: subset -> 0 -> complementary subset, complementary subset -> subset -> implemented mask, rejected -> error -> implemented mask); for the types with Synchronize handler one stub synchronized six times in a row: split -> one message -> cut short after 3 messages -> split with failing handler -> cut short after 1 message -> one message",
+		"subdomain": "every generated plugin type (512: 128 handler sets x with/without Configure x with/without Synchronize) x each of the 13 event kinds (succeeding and failing handler; documented message shape, container present/absent the other way round, pod/container/resources absent and present-but-empty; the failing handler's error in every form x sentinel / status code, round-robin over types and kinds; related message parts: update resources equal to the container's own, overhead equal to resources and to the pod's own, container id equal to pod id, every request repeated verbatim); updates naming the request's own container (create / update / stop, with and without adjustment); for every eighth handler set with Synchronize handler a restart storm of 50 sessions on one stub (25 times: connection dropped right after a More=true message, then a complete synchronization); six cases with a handler taking 2.3 s under an announced request timeout of 6 s (first session; third session after sessions announcing 40 ms and none); for the types without Synchronize handler: Configure returning 0, the implemented mask, each single implemented event, implemented+each single unimplemented event, and, for every third handler set, about twenty masks using bits 13..31 (all ones, the sign bit, bits 13..30; alone and on top of handled / unhandled events); per type restart sequences on one stub (3 connections; with Configure: subset -> 0 -> complementary subset, complementary subset -> subset -> implemented mask, rejected -> error -> implemented mask); for the types with Synchronize handler one stub synchronized six times in a row: split -> one message -> cut short after 3 messages -> split with failing handler -> cut short after 1 message -> one message",
 		"types":     len(registry),
 		"cases":     cases,
 		"sessions":  sessions,
